@@ -70,6 +70,14 @@ func c08One(ctx *Ctx, i int, rng *rand.Rand, allowStall bool) {
 		maxh = []int{0, 0, 3}[rng.Intn(3)]
 		ctx.Count("directed-aged-peer")
 	}
+	// fourth directed family: hosts that registered with a kind and register again without naming
+	// one (an agent that cannot tell what its node is, a legacy request): they are hosts of no
+	// particular kind from then on
+	reKind := (i/2)%8 == 6 && !allowStall
+	if reKind {
+		maxh = 0
+		ctx.Count("directed-re-registered-without-kind")
+	}
 	w := newWorld(worldCfg{Drv: drv, Price: "1000", IntervalNs: 60e9, Settle: true, MaxHosts: maxh})
 	defer w.Close()
 	w.stallFor = 7 * time.Second
@@ -79,7 +87,7 @@ func c08One(ctx *Ctx, i int, rng *rand.Rand, allowStall bool) {
 	w.aliasAll()
 	desc := c08Desc{MaxHosts: maxh, Hosts: map[string]string{}}
 	nh := rng.Intn(len(c08Hosts) + 1)
-	if directed || legacyCap || agedPeer {
+	if directed || legacyCap || agedPeer || reKind {
 		nh = len(c08Hosts)
 	}
 	hosts := append([]string{}, c08Hosts...)
@@ -91,7 +99,7 @@ func c08One(ctx *Ctx, i int, rng *rand.Rand, allowStall bool) {
 		kindOf[h] = []string{"geth", "geth", "parity"}[rng.Intn(3)]
 		stale[h] = rng.Intn(5) == 0
 	}
-	if legacyCap || agedPeer {
+	if legacyCap || agedPeer || reKind {
 		for _, h := range hosts {
 			kindOf[h], stale[h] = dirKind, false
 		}
@@ -123,14 +131,24 @@ func c08One(ctx *Ctx, i int, rng *rand.Rand, allowStall bool) {
 			}
 		}
 	}
+	if reKind {
+		for k, h := range hosts {
+			if k < 1+i%3 {
+				if _, err := w.connect(h, true, "", "", "enode://"+nodeIDOf(h)+"@10.2.2.2:30303"); err != nil {
+					fatal("re-register %s: %v", h, err)
+				}
+				kindOf[h] = ""
+			}
+		}
+	}
 	// requester
 	self := "c1"
 	selfKind := []string{"geth", "parity"}[rng.Intn(2)]
 	registered := rng.Intn(12) != 0
-	if directed || legacyCap || agedPeer {
+	if directed || legacyCap || agedPeer || reKind {
 		selfKind, registered = dirKind, true
 	}
-	if !directed && !legacyCap && !agedPeer && rng.Intn(8) == 0 && nh > 0 { // a host asking for peers
+	if !directed && !legacyCap && !agedPeer && !reKind && rng.Intn(8) == 0 && nh > 0 { // a host asking for peers
 		self = hosts[0]
 	} else if registered {
 		if _, err := w.connect(self, false, selfKind, "", ""); err != nil {
@@ -140,7 +158,7 @@ func c08One(ctx *Ctx, i int, rng *rand.Rand, allowStall bool) {
 	// already-peered hosts
 	var peered []string
 	for _, h := range hosts {
-		if h != self && rng.Intn(4) == 0 && !directed && !legacyCap && !agedPeer {
+		if h != self && rng.Intn(4) == 0 && !directed && !legacyCap && !agedPeer && !reKind {
 			peered = append(peered, h)
 		}
 		if agedPeer && len(peered) < 1+i%2 {
@@ -180,7 +198,7 @@ func c08One(ctx *Ctx, i int, rng *rand.Rand, allowStall bool) {
 	connected := map[string]bool{}
 	for _, h := range hosts {
 		connected[h] = true
-		if rng.Intn(5) == 0 && !directed && !legacyCap && !agedPeer {
+		if rng.Intn(5) == 0 && !directed && !legacyCap && !agedPeer && !reKind {
 			w.closeConn(h, 0)
 			connected[h] = false
 		}
@@ -195,7 +213,7 @@ func c08One(ctx *Ctx, i int, rng *rand.Rand, allowStall bool) {
 		case r == 1 && allowStall:
 			outcome[h] = "stall"
 		}
-		if legacyCap || agedPeer {
+		if legacyCap || agedPeer || reKind {
 			outcome[h] = "ack"
 		}
 		if directed {
@@ -260,6 +278,9 @@ func c08One(ctx *Ctx, i int, rng *rand.Rand, allowStall bool) {
 	if legacyCap {
 		num, kind, via = []int{0, 0, -2}[rng.Intn(3)], []string{dirKind, ""}[rng.Intn(2)], "vipnode_client"
 	}
+	if reKind {
+		num, kind, via = 4+rng.Intn(3), dirKind, []string{"vipnode_peer", "vipnode_client"}[rng.Intn(2)]
+	}
 	if agedPeer {
 		num, kind, via = 1+rng.Intn(3), []string{dirKind, ""}[rng.Intn(2)], []string{"vipnode_peer", "vipnode_peer", "vipnode_client"}[rng.Intn(3)]
 	}
@@ -274,6 +295,9 @@ func c08One(ctx *Ctx, i int, rng *rand.Rand, allowStall bool) {
 	var nodesCoq []string
 	for _, n := range append(append([]string{}, c08Hosts...), "c1") {
 		if nd, err := w.st.GetNode(store.NodeID(nodeIDOf(n))); err == nil {
+			if k, ok := kindOf[n]; ok && reKind {
+				nd.Kind = k // the kind the host last registered with, by the harness's own record
+			}
 			nodesCoq = append(nodesCoq, w.t.nodeCoq(*nd))
 		}
 	}
@@ -311,6 +335,9 @@ func c08One(ctx *Ctx, i int, rng *rand.Rand, allowStall bool) {
 		nodesCoq = nil
 		for _, n := range append(append([]string{}, c08Hosts...), "c1") {
 			if nd, e := w.st.GetNode(store.NodeID(nodeIDOf(n))); e == nil {
+				if k, ok := kindOf[n]; ok && reKind {
+					nd.Kind = k
+				}
 				nodesCoq = append(nodesCoq, w.t.nodeCoq(*nd))
 			}
 		}
@@ -459,6 +486,9 @@ func runC09(ctx *Ctx) {
 		if ctx.Want(n + 90 + drv) {
 			c09FailedReconnect(ctx, n+90+drv, drv, false)
 		}
+		if ctx.Want(n + 100 + drv) {
+			c09OldConnectionKeepalive(ctx, n+100+drv, drv)
+		}
 	}
 	forEachCase(ctx, n, func(i int, rng *rand.Rand) {
 		drv := i % 2
@@ -504,8 +534,38 @@ func runC09(ctx *Ctx) {
 		cur := map[string]int{} // connection each host most recently registered on
 		steps := 6 + rng.Intn(14)
 		for k := 0; k < steps; k++ {
-			r := rng.Intn(12)
+			r := rng.Intn(13)
 			switch {
+			case r == 12: // a keep-alive of a host, sent over any open connection (the one it is registered on, one it was registered on before, or another host's): a keep-alive is not a registration
+				h := hosts[rng.Intn(len(hosts))]
+				var openIdx []int
+				for j, c := range conns {
+					if c.open {
+						openIdx = append(openIdx, j)
+					}
+				}
+				if len(openIdx) == 0 {
+					continue
+				}
+				ci := openIdx[rng.Intn(len(openIdx))]
+				id := nodeIDOf(h)
+				req := pool.UpdateRequest{BlockNumber: uint64(k)}
+				nonce := w.nextNonce()
+				sig := w.sign(keyFor(h), "vipnode_update", id, nonce, req)
+				before := w.pool.NumRemotes()
+				var resp pool.UpdateResponse
+				cctx, cancel := context.WithTimeout(context.Background(), 10*time.Second)
+				err := conns[ci].hc.cliSide.Call(cctx, &resp, "vipnode_update", sig, id, nonce, req)
+				cancel()
+				nr := w.pool.NumRemotes()
+				evs = append(evs, c09Ev{Ev: "keepalive-over-connection", Host: h, Conn: ci, Remotes: nr})
+				if nr != before {
+					where := "a connection it is not registered on"
+					if cc, ok := cur[h]; ok && cc == ci {
+						where = "the connection it is registered on"
+					}
+					mon = append(mon, fmt.Sprintf("c09-keepalive-changed-registry: a keep-alive of host %s arrived over connection %d (%s; result %v): registry entries %d -> %d; only registrations and closed connections change who can be instructed", h, ci, where, err, before, nr))
+				}
 			case r == 11: // a goodbye (vipnode_disconnect, as pool.Remote sends it) for a host, arriving on a connection other than the one it is registered on
 				h := hosts[rng.Intn(len(hosts))]
 				var others []int
